@@ -136,7 +136,6 @@ Proof.
 Qed.
 
 (* ------------------------------------------------------------------ total_le_budget *)
-Definition zsum (l : list Z) : Z := fold_right Z.add 0 l.
 Lemma zsum_app a b : zsum (a ++ b) = zsum a + zsum b.
 Proof. induction a; simpl; lia. Qed.
 
